@@ -59,6 +59,20 @@ def patch_all(orig, repl, name):
     return n
 
 
+class use_net:
+    """temporarily interpret the handles created inside the block over another SymNet (a view of the same bits)"""
+
+    def __init__(self, net):
+        self.net = net
+
+    def __enter__(self):
+        self.old = CTX.net
+        CTX.net = self.net
+
+    def __exit__(self, *a):
+        CTX.net = self.old
+
+
 def uninstall():
     for mod, attr, orig in reversed(_PATCHED):
         setattr(mod, attr, orig)
@@ -252,15 +266,19 @@ AEON_TEXT = {}
 
 
 class FnProxy:
-    """Bdd of an update function of a (percolated) network: only the uses on the audited list"""
+    """Bdd of an update function of a (percolated) network, possibly restricted to a subspace:
+    only the uses on the audited list"""
 
-    def __init__(self, real, nctx, v, neg=False):
+    def __init__(self, real, nctx, v, neg=False, restr=None):
         self._real, self._nctx, self._v, self._neg = real, nctx, v, neg
+        self._restr = restr if restr is not None else nctx[0]
 
     def cardinality(self):
         c = self._real.cardinality()
         if CTX.opaque > 0 or not CTX.active:
             return c
+        if self._restr != self._nctx[0]:
+            raise Unmodelled("cardinality of a restricted update function")
         e = CTX.net.count_true(self._v, self._nctx[0], negate=self._neg)
         # the BDD lives over the variables of the percolated network only
         nfree = sum(1 for s in self._nctx[0] if s is None)
@@ -272,7 +290,20 @@ class FnProxy:
         return SymInt(e)
 
     def l_not(self):
-        return FnProxy(self._real.l_not(), self._nctx, self._v, not self._neg)
+        return FnProxy(self._real.l_not(), self._nctx, self._v, not self._neg, self._restr)
+
+    def r_restrict(self, state):
+        r = self._real.r_restrict(state)
+        if CTX.opaque > 0 or not CTX.active:
+            return r
+        if not all(isinstance(k, str) for k in state):
+            raise Unmodelled("r_restrict with non-name keys on an update function")
+        sp = meet(self._restr, rawspace({k: int(v) for k, v in state.items()}))
+        if sp is None:
+            # restricting by a value that contradicts the current restriction cannot happen for a BDD
+            # (the variable is already eliminated): the later value is ignored
+            sp = tuple(a if a is not None else b for a, b in zip(self._restr, rawspace({k: int(v) for k, v in state.items()})))
+        return FnProxy(r, self._nctx, self._v, self._neg, sp)
 
     def is_true(self):
         return self._const(1)
@@ -285,14 +316,14 @@ class FnProxy:
         if CTX.opaque > 0 or not CTX.active:
             return r
         bb = (1 - b) if self._neg else b
-        return CTX.obs_eq(CTX.net.const_on(self._v, bb, self._nctx[0]), r, "Bdd.is_const", self._v)
+        return CTX.obs_eq(CTX.net.const_on(self._v, bb, self._restr), r, "Bdd.is_const", self._v)
 
     def __call__(self, valuation):
         r = self._real(valuation)
         if CTX.opaque > 0 or not CTX.active:
             return r
         net = CTX.net
-        base = self._nctx[0]
+        base = self._restr
         x = list(0 if s is None else s for s in base)
         ctx = self._real.__ctx__()
         for var, val in valuation.items():
@@ -348,14 +379,21 @@ class _BNFacade:
     @staticmethod
     def from_bnet(text):
         r = REAL["BooleanNetwork"].from_bnet(text)
-        if not CTX.active:
+        if not CTX.active or CTX.opaque > 0:
             return r
-        return NetProxy(r, ((None,) * CTX.net.n, None))
+        net = CTX.net
+        names = list(r.variable_names())
+        if any(nm not in net.names for nm in names):
+            raise Unmodelled("network over variables that are not part of the symbolic network")
+        if set(names) == set(net.names):
+            return NetProxy(r, ((None,) * net.n, None))
+        # a part of the symbolic network (its variables must be backward-closed: checked by the caller's family)
+        return NetProxy(r, ((None,) * net.n, frozenset(net.names.index(nm) for nm in names)))
 
     @staticmethod
     def from_aeon(text):
         r = REAL["BooleanNetwork"].from_aeon(text)
-        if not CTX.active:
+        if not CTX.active or CTX.opaque > 0:
             return r
         if text not in AEON_TEXT:
             raise Unmodelled("from_aeon on text that was not produced by to_aeon in this run")
@@ -363,7 +401,12 @@ class _BNFacade:
 
     @staticmethod
     def from_sbml(text):
-        raise Unmodelled("from_sbml")
+        r = REAL["BooleanNetwork"].from_sbml(text)
+        if not CTX.active or CTX.opaque > 0:
+            return r
+        if "sbml:" + text not in AEON_TEXT:
+            raise Unmodelled("from_sbml on text that was not registered by the harness")
+        return NetProxy(r, AEON_TEXT["sbml:" + text])
 
     @staticmethod
     def from_file(path):
@@ -597,15 +640,23 @@ def w_trappist(network, problem="min", reverse_time=False, solution_limit=None, 
                 srcs_obs.append(v)
         srcs = tuple(srcs_obs)
     ens_rel = tuple(None if nctx[0][i] is not None else ens[i] for i in range(net.n))
-    spec = net.trappist_spec(problem, nctx[0], nctx[1], ens_rel, srcs if problem == "max" else (), avoid)
     got = set(_spaces_to_global(nctx, full))
     if len(got) != len(full):
         CTX.mismatch.append(("trappist", "duplicate answers"))
-    for M, fm in spec.items():
-        CTX.obs_eq(fm, M in got, "trappist", (problem, M))
-    for M in got:
-        if M not in spec:
-            CTX.mismatch.append(("trappist", f"answer {M} outside the candidate set"))
+    if hasattr(net, "trappist_obs") and nctx[1] is None and not avoid and problem in ("min", "max"):
+        # modular network: the answer set is observed component-wise (products of component answers)
+        obs, bad = net.trappist_obs(problem, nctx[0], ens_rel, srcs if problem == "max" else (), sorted(got, key=str))
+        for b in bad:
+            CTX.mismatch.append(("trappist", b))
+        for fm, val, detail in obs:
+            CTX.obs_eq(fm, val, "trappist", (problem, detail))
+    else:
+        spec = net.trappist_spec(problem, nctx[0], nctx[1], ens_rel, srcs if problem == "max" else (), avoid)
+        for M, fm in spec.items():
+            CTX.obs_eq(fm, M in got, "trappist", (problem, M))
+        for M in got:
+            if M not in spec:
+                CTX.mismatch.append(("trappist", f"answer {M} outside the candidate set"))
     res = order(full)
     if lim is not None:
         def real_len(k):
@@ -685,6 +736,15 @@ def w_compute_attractors_symbolic(sd, node_id, candidate_states, seeds_only=Fals
     if not CTX.active or CTX.opaque > 0:
         return REAL["compute_attractors_symbolic"](sd, node_id, candidate_states, seeds_only)
     net = CTX.net
+    from . import fine
+    if fine.ENABLED["on"]:
+        nctx0 = nctx_of(sd.network)
+        if nctx0[1] is None and all(b is None for b in nctx0[0]):
+            # fine mode: the real function runs on vertex sets with a symbolic denotation (no region oracle)
+            seeds, real_sets, symsets = fine.fine_compute_attractors_symbolic(sd, node_id, candidate_states, seeds_only)
+            CTX.symsets.append({"node": node_id, "seeds": [net.state_of(s) for s in seeds], "sets": symsets,
+                                "candidates": [net.state_of(c) for c in candidate_states]})
+            return seeds, real_sets
     CTX.opaque += 1
     try:
         seeds, sets = REAL["compute_attractors_symbolic"](sd, node_id, candidate_states, seeds_only)
@@ -750,16 +810,92 @@ def w_compute_attractors_symbolic(sd, node_id, candidate_states, seeds_only=Fals
         is_seed = c in seedset
         CTX.obs_eq(fNot(net.Or(hit)), is_seed, "compute_attractors_symbolic", c)
         accepted.append((c, is_seed))
+    if sets is not None and not others and override is None:
+        # the returned sets are opaque handles for biobalm; their content is validated against the forward
+        # closure of the seed (C12) - an observation, so a wrong set is reported at this representative
+        if len(sets) != len(seeds):
+            CTX.mismatch.append(("attractor_sets", "number of sets differs from number of seeds"))
+        for sdict, vs in zip(seeds, sets):
+            sx = lift(sdict)
+            got = _vertex_states(sd, vs)
+            for y in net.states:
+                CTX.obs_eq(net.reach(sx, y), y in got, "attractor_sets", (sx, y))
     return seeds, sets
 
 
+def _vertex_states(sd, vs):
+    """explicit content of a VertexSet over all network variables"""
+    net = CTX.net
+    real_net = unwrap(sd.network)
+    pos = {v: net.names.index(real_net.get_variable_name(v)) for v in real_net.variables()}
+    out = set()
+    for vert in vs.items():
+        d = vert.to_dict()
+        x = [0] * net.n
+        for v, i in pos.items():
+            x[i] = int(d[v])
+        out.add(tuple(x))
+    return out
+
+
 def w_symbolic_attractor_fallback(sd, node_id):
-    raise Unmodelled("symbolic_attractor_fallback in coarse mode")
+    """region oracle for the fully symbolic fallback: (seeds, sets) are validated against the definition on the
+    representative: the sets are exactly the attractors of the node that are not inside a successor space
+    (for skip nodes: at least sound), each seed lies in its set"""
+    if not CTX.active or CTX.opaque > 0:
+        return REAL["symbolic_attractor_fallback"](sd, node_id)
+    net = CTX.net
+    CTX.opaque += 1
+    try:
+        seeds, sets = REAL["symbolic_attractor_fallback"](sd, node_id)
+    finally:
+        CTX.opaque -= 1
+    nctx = nctx_of(sd.network)
+    if nctx[1] is not None or any(b is not None for b in nctx[0]):
+        raise Unmodelled("symbolic fallback on a sub-network diagram")
+    node = sd.node_data(node_id)
+    space = rawspace(node["space"])
+    kids = [rawspace(sd.node_data(c)["space"]) for c in sd.dag.successors(node_id)] if node["expanded"] else []
+    contents = [_vertex_states(sd, vs) for vs in sets]
+    if len(seeds) != len(sets):
+        CTX.mismatch.append(("fallback", "number of sets differs from number of seeds"))
+    union = set().union(*contents) if contents else set()
+    for sdict, got in zip(seeds, contents):
+        sx = net.state_of(sdict)
+        if sx not in got:
+            CTX.mismatch.append(("fallback", f"seed {sx} not in its set"))
+        for y in net.states:
+            CTX.obs_eq(net.reach(sx, y), y in got, "fallback_set", (sx, y))
+        CTX.obs_eq(net.attr(sx), True, "fallback_seed_attr", sx)
+    if not node["skipped"]:
+        for y in net.states:
+            if in_space(y, space) and not any(in_space(y, k) for k in kids):
+                CTX.obs_eq(net.attr(y), y in union, "fallback_cover", y)
+    return seeds, sets
+
+
+class UnwrapStatic:
+    """native namespaces (Attractors, Reachability) used inside opaque regions: arguments are unwrapped;
+    outside a region they are not on the audited list"""
+
+    def __init__(self, real, name):
+        self._real, self._name = real, name
+
+    def __getattr__(self, attr):
+        f = getattr(self._real, attr)
+        if CTX.active and CTX.opaque == 0:
+            raise Unmodelled(f"{self._name}.{attr} outside an opaque region")
+
+        def call(*a, **k):
+            return f(*unwrap(list(a)), **{kk: unwrap(vv) for kk, vv in k.items()})
+        return call
 
 
 def install():
     if _PATCHED:
         return
+    patch_all(ba.Attractors, UnwrapStatic(ba.Attractors, "Attractors"), "Attractors")
+    patch_all(ba.Reachability, UnwrapStatic(ba.Reachability, "Reachability"), "Reachability")
     patch_all(SDM.trappist, w_trappist, "trappist")
     patch_all(SDM.percolate_space, w_percolate_space, "percolate_space")
     patch_all(SDM.percolate_network, w_percolate_network, "percolate_network")
